@@ -41,6 +41,20 @@ func genC12(r *core.Rng) (files map[string]string, program string, class string)
 	// f: amounts whose partial sums are inexact in binary — the digits of a sum then depend on the order of the additions
 	inexact := []string{"19.99", "0.1", "0.7", "1.005", "33.33", "0.3", "1e-3", "2.675", "1234.56", "0.07", "99.9", "-0.1", "1e10", "7.1"}
 	t := genTable(r, "t", n, []colProfile{{Kind: "k", Vals: keys[:nk]}, {Kind: "ints", NullPct: 5}, {Kind: "text", NullPct: 5}, {Kind: "f", Vals: inexact, NullPct: 3}}, []string{"k", "v", "s", "f"})
+	if r.P(30) {
+		// the file consists of k equally long runs, each sorted by id (two sorted exports appended to each other): every
+		// worker's share of the records may then be in order while the table is not
+		k := []int{2, 3, 4, 8}[r.Intn(4)]
+		n = 80 * k * r.Range(1, 3)
+		t = genTable(r, "t", n, []colProfile{{Kind: "k", Vals: keys[:nk]}, {Kind: "ints", NullPct: 5}, {Kind: "text", NullPct: 5}, {Kind: "f", Vals: inexact, NullPct: 3}}, []string{"k", "v", "s", "f"})
+		var rows [][]*string
+		for j := 0; j < k; j++ {
+			for x := j; x < n; x += k {
+				rows = append(rows, t.Rows[x])
+			}
+		}
+		t.Rows = rows
+	}
 	m := r.Range(3, 200)
 	u := genTable(r, "u", m, []colProfile{{Kind: "k", Vals: keys[:nk]}, {Kind: "ints"}}, []string{"k", "w"})
 	files = map[string]string{"t.csv": t.CSV(), "u.csv": u.CSV()}
@@ -174,6 +188,9 @@ func firstDiff(a, b string) string {
 }
 
 var c12Sel = []string{
+	"SELECT id, v FROM t ORDER BY id",
+	"SELECT id, ROW_NUMBER() OVER (ORDER BY id) AS rn, SUM(v) OVER (ORDER BY id) AS rs FROM t",
+	"SELECT id, k FROM t ORDER BY id DESC LIMIT 7",
 	"SELECT SUM(f) AS s, AVG(f) AS a, STDEV(f) AS sd, VAR(f) AS va, MEDIAN(f) AS md, COUNT(f) AS c FROM t",
 	"SELECT k, SUM(f) AS s, AVG(f) AS a, SUM(f * v) AS sp, STDEVP(f) AS sd FROM t GROUP BY k",
 	"SELECT id, SUM(f) OVER (PARTITION BY k) AS s, AVG(f) OVER () AS a, SUM(f) OVER (ORDER BY id ROWS BETWEEN 90 PRECEDING AND CURRENT ROW) AS w FROM t",
